@@ -76,6 +76,138 @@ def tlc_replay_stage(pid, module, cfg, timeout=900, workers=None, need_cases=Tru
     return st
 
 
+def tlc_sessions(pid, module, cfg, timeout=900, workers=None, keep=None):
+    """Model-check `module` under `cfg` (the invariants of the specification are checked on every
+    state) and collect the sessions it printed (R = "sess").  Returns (stage, sessions)."""
+    st = Stage()
+    r = common.run_tlc(pid, module, os.path.join(SPEC, cfg), timeout=timeout, workers=workers)
+    st.states = r["distinct"]
+    st.transitions = r["generated"]
+    st.notes[cfg] = {"tlc_wall_s": round(r["wall"], 1), "distinct": r["distinct"],
+                     "generated": r["generated"], "sessions_emitted": r["ncases"]}
+    if r["violated"]:
+        raise ToolError("TLC reports a property violation on the specification (%s): %s; see %s"
+                        % (cfg, r["violated"], r["out"]))
+    if not r["ok"]:
+        raise ToolError("TLC failed on %s: %s; see %s" % (cfg, r["error"], r["out"]))
+    sessions = []
+    tag = os.path.splitext(cfg)[0]
+    with open(r["cases"]) as f:
+        for i, line in enumerate(f):
+            d = json.loads(line)
+            if d.get("R") != "sess":
+                continue
+            if keep is not None and not keep(d):
+                continue
+            d["id"] = "%s-%d" % (tag, i)
+            sessions.append(d)
+    st.exhaustive = True
+    return st, sessions
+
+
+def validate_sessions(pid, name, sessions, chunk=None, timeout=1500, workers=None, exhaustive=False,
+                      limit=65535):
+    """Drive the sessions through the real interpreter (bvh drive) and let TLC decide whether each
+    recorded trace is a behaviour of the specification (TraceMachine)."""
+    st = Stage()
+    st.exhaustive = exhaustive
+    if not sessions:
+        raise ToolError("no sessions for stage %s" % name)
+    d = common.outdir(pid)
+    sp = os.path.join(d, name + ".sessions.ndjson")
+    tp = os.path.join(d, name + ".trace.ndjson")
+    with open(sp, "w") as f:
+        for s in sessions:
+            f.write(json.dumps(s) + "\n")
+    t0 = time.time()
+    common.run_bvh(["drive", sp, tp])
+    t_drive = time.time() - t0
+    n = len(sessions)
+    w = workers or common.TLC_WORKERS
+    if chunk is None:
+        chunk = max(1, min(40, n // (w * 4) + 1))
+    cfgname = "TraceMachine.cfg"
+    r = common.run_tlc(pid, "TraceMachine.tla", os.path.join(SPEC, cfgname), timeout=timeout, workers=w,
+                       env_extra={"TRACE": tp, "CHUNK": str(chunk)}, java_opts="-Xss1g",
+                       tag=name)
+    if r["violated"]:
+        raise ToolError("an invariant of the abstract machine failed during trace validation (%s): %s; see %s"
+                        % (name, r["violated"], r["out"]))
+    if not r["ok"]:
+        raise ToolError("TLC failed validating %s: %s; see %s" % (name, r["error"], r["out"]))
+    acc, stuck, skip = set(), {}, {}
+    with open(r["cases"]) as f:
+        for line in f:
+            dct = json.loads(line)
+            t = dct.get("T")
+            if t == "ACCEPT":
+                acc.add(dct["id"])
+            elif t == "STUCK":
+                stuck.setdefault(dct["id"], dct)
+            elif t == "SKIP":
+                skip.setdefault(dct["id"], dct)
+    traces = {}
+    byid = {s["id"]: s for s in sessions}
+    rejected = [i for i in byid if i not in acc and i not in skip]
+    if rejected:
+        with open(tp) as f:
+            for line in f:
+                rec = json.loads(line)
+                if rec["id"] in rejected:
+                    traces[rec["id"]] = rec
+    for i in rejected:
+        info = stuck.get(i)
+        rec = traces.get(i, {})
+        l = info["l"] if info else None
+        cmdrec = rec.get("cmds", [])[l - 1] if info and l and l <= len(rec.get("cmds", [])) else None
+        lines = [c.get("text") for c in rec.get("cmds", [])]
+        why = "trace rejected by the specification"
+        if info:
+            why += " at command %d (%r): specified response %s, observed %s%s" % (
+                l, cmdrec["text"] if cmdrec else "?", json.dumps(brief_resp(info.get("resp"))),
+                json.dumps(brief_resp(cmdrec["resp"])) if cmdrec else "?",
+                "" if not info.get("respok") else "; responses agree, the state probe differs")
+        else:
+            why += " (no behaviour of the specification reaches the end of the trace)"
+        st.failures.append({"case": byid[i], "why": why, "lines": lines,
+                            "observed": cmdrec, "spec": info})
+    st.evaluations = n
+    st.validated = len(acc)
+    st.skipped = len([i for i in skip if i not in acc])
+    st.states = r["distinct"]
+    st.transitions = r["generated"]
+    st.notes[name] = {"sessions": n, "accepted": len(acc), "out_of_model": st.skipped,
+                      "rejected": len(rejected), "drive_wall_s": round(t_drive, 1),
+                      "tlc_wall_s": round(r["wall"], 1), "trace_states": r["distinct"], "chunk": chunk}
+    if sessions and len(acc):
+        first = next(s for s in sessions if s["id"] in acc)
+        st.samples.append({"session": [render_cmd(c) for c in first["cmds"]][:12], "verdict": "accepted"})
+    return st
+
+
+def brief_resp(resp):
+    out = []
+    for it in resp or []:
+        if it.get("k") == "out":
+            out.append("".join(chr(c) for c in it["s"]))
+        elif it.get("k") == "err":
+            out.append({"err": [[e.get("code"), e.get("ln", e.get("line"))] for e in it["errs"]]})
+        elif it.get("k") == "input":
+            out.append({"input": "".join(chr(c) for c in it["s"])})
+        elif it.get("k") == "list":
+            out.append({"list": it.get("ln"), "text": it.get("text") if isinstance(it.get("text"), str)
+                        else "".join(chr(c) for c in it.get("text", []))})
+        else:
+            out.append(it.get("k"))
+    return out
+
+
+def render_cmd(c):
+    """a short human-readable form of a command (for samples in evidence only)"""
+    return {k: v for k, v in c.items() if k in ("k", "n", "int_after")} | (
+        {"stmts": [s.get("k") for s in c.get("stmts", [])]} if "stmts" in c else {})
+
+
 def finish(pid, tier, seed, level, stages, t0, rule, assumptions, nontrivial=None, extra=None):
     known = [f for f in common.load_known() if f.get("property") == pid and f.get("status") == "open"]
     violations = []
@@ -140,7 +272,38 @@ def check_C08(tier, seed):
                                "harness renderer and comparator are trusted"])
 
 
-CHECKS = {"C08": check_C08}
+def gen_sessions(seed, n, prefix, **kw):
+    import gen
+    out = []
+    for i in range(n):
+        g = gen.Gen(seed * 100003 + i, **kw)
+        out.append(g.session("%s-%d-%d" % (prefix, seed, i)))
+    return out
+
+
+ASSUME_SESS = ["the harness renderer (AST -> source text) and the probe projection are trusted",
+               "floating-point content is specified only on short dyadic rationals; sessions that leave "
+               "that domain are discarded (counted as out_of_model), never failed"]
+
+
+def check_C01(tier, seed):
+    t0 = time.time()
+    quick = tier == "quick"
+    st1, sess = tlc_sessions("C01", "MC_C01.tla", "MC_C01_%s.cfg" % tier, timeout=3000,
+                             keep=lambda d: not d.get("oom"))
+    st2 = validate_sessions("C01", "mc", sess, exhaustive=True, timeout=3000)
+    rnd = gen_sessions(seed, 150 if quick else 2500, "C01r")
+    st3 = validate_sessions("C01", "rnd", rnd, timeout=3000)
+    return finish("C01", tier, seed, "model_checking", [st1, st2, st3], t0,
+                  rule="every program of the bounded template grammar (one template per line) is run on the "
+                       "abstract machine by TLC with its invariants checked at every step; each terminating "
+                       "behaviour and each seeded random program (5-30 lines: loops left early, subroutines, "
+                       "nested IF, ON, WHILE, TRON) is executed by the real interpreter and the recorded trace "
+                       "(responses + state probe after every command) must be a behaviour of the specification",
+                  assumptions=ASSUME_SESS)
+
+
+CHECKS = {"C08": check_C08, "C01": check_C01}
 
 
 def check(pid, tier, seed):
